@@ -65,6 +65,8 @@ type onceCtl struct {
 	proc    map[int64]int
 	target  uintptr
 	passedF []bool
+	sawL1   []bool // file target: the re-check under the lock found the structures built
+	file    bool
 	gates   []chan struct{}
 	arrived chan onceArrival
 }
@@ -89,10 +91,18 @@ func (c *onceCtl) hook(ev int, a, b uintptr, id uintptr) {
 		gate = "F"
 	case verifhook.InitLocked:
 		gate = "L"
+		if c.file && a == 1 {
+			c.sawL1[p] = true
+		}
 	case verifhook.InitBodyDone:
 		gate = fmt.Sprintf("B%d", a)
 		a = b // observation: the flag value while the body runs
 	case verifhook.InitBeforeStore:
+		if c.file && c.sawL1[p] {
+			// filedesc.File.lazyInitOnce stores the flag again (idempotently) on the path on which the re-check
+			// found the work done; the specification returns from Locked directly, so this is not a step
+			return
+		}
 		gate = "S" // a: tables ready
 	default:
 		return
@@ -125,15 +135,28 @@ func firstUse(mt protoreflect.MessageType) (ok bool, why string) {
 
 func onceExec(c core.Case) core.Case {
 	g := core.Int(c["g"])
-	mt := nextFreshType()
-	if mt == nil {
-		return core.Case{"ok": true, "why": "", "type": "", "skipped": true}
+	var (
+		name   string
+		target uintptr
+		use    func() (bool, string)
+	)
+	isFile := c["target"] != nil && core.Str(c["target"]) == "file"
+	if isFile {
+		fd, want, n := nextFreshFile()
+		name, target = n, fileID(fd)
+		use = func() (bool, string) { return useFile(fd, want) }
+	} else {
+		mt := nextFreshType()
+		if mt == nil {
+			return core.Case{"ok": true, "why": "", "type": "", "skipped": true}
+		}
+		name, target = string(mt.Descriptor().FullName()), uintptr(mtID(mt))
+		use = func() (bool, string) { return firstUse(mt) }
 	}
-	name := string(mt.Descriptor().FullName())
 	if core.Int(c["flag0"]) == 1 {
-		firstUse(mt) // the type has been initialised before the goroutines start
+		use() // initialised before the goroutines start
 	}
-	k := &onceCtl{proc: map[int64]int{}, target: uintptr(mtID(mt)), passedF: make([]bool, g), gates: make([]chan struct{}, g),
+	k := &onceCtl{proc: map[int64]int{}, target: target, passedF: make([]bool, g), sawL1: make([]bool, g), file: isFile, gates: make([]chan struct{}, g),
 		arrived: make(chan onceArrival, 4*g)}
 	for i := range k.gates {
 		k.gates[i] = make(chan struct{}, 1)
@@ -176,7 +199,7 @@ func onceExec(c core.Case) core.Case {
 				k.mu.Lock()
 				k.proc[goid()] = p
 				k.mu.Unlock()
-				useOK[p], useWhy[p] = firstUse(mt)
+				useOK[p], useWhy[p] = use()
 				finished <- p
 			}()
 		} else {
@@ -281,6 +304,10 @@ func mtID(mt protoreflect.MessageType) uintptr { return uintptr(unsafe.Pointer(m
 
 func onceGen(r *rand.Rand, n int, emit func(core.Case)) {
 	for i := 0; i < n; i++ {
-		emit(core.Case{"g": 2 + r.IntN(3), "flag0": r.IntN(4) / 3, "steps": []any{}})
+		c := core.Case{"g": 2 + r.IntN(3), "flag0": r.IntN(4) / 3, "steps": []any{}}
+		if r.IntN(2) == 0 {
+			c["target"] = "file"
+		}
+		emit(c)
 	}
 }
